@@ -47,6 +47,10 @@ CLAIMS = {
         category="proof", technique="contract-based deductive verification (Verus/SMT on the extracted cache state machine against a recency-ordered sequence view; LRU queue behind an assumed contract)",
         text="DefaultCacheState::{get, contains_key, put, remove, evict_entries, clear} and the update_cache_limit critical section are proved to keep accounted size == sum of (key size + value size) over the entries, to stay within the byte limit after every put / limit change, to evict exactly the shortest prefix of least-recently-used entries needed, to make the written key most recent, and never to return an expired entry (expired => removed, None/false). CachedFileMetadataEntry::is_valid_for is checked (Kani, forged entries): valid <=> size and mtime unchanged. Table-drop invalidation as seen by queries is whole-engine and not claimed.",
         note="Trusted: Verus+Z3; ASSUMED LruQueue contract (not checked against lru_queue.rs); size() pure, clone equal, Eq == spec equality; Instant/Duration as integers; memory_limit <= usize::MAX/2; hit counters dropped (R8); rewrites R4,R5,R6,R10,R13,R15."),
+    "C47": dict(
+        category="proof", technique="contract-based deductive verification (Verus/SMT with non-linear power-of-ten lemmas, on the extracted real function over a type model of DataType/ScalarValue)",
+        text="Cast unwrapping of numeric literals (try_cast_numeric_literal, the function unwrap_cast uses to move a cast from a column onto a literal) is proved, for every integer or decimal literal and every integer or decimal target type with any precision and any i8 scale, either to refuse (None) or to return a literal of the target type, within the target's range, that denotes exactly the same number (r * 10^ls == v * 10^ts over the integers), with no arithmetic overflow or division by zero. This is the exactness half of C47 for the literal-rewriting path only; comparison_coercion's choice of common type, operand-order symmetry, IN lists, joins and the Arrow comparison kernels are whole-engine and not claimed.",
+        note="Trusted: Verus+Z3; type model of DataType/ScalarValue restricted to the variants the function distinguishes; i128::pow/checked_pow by assume_specification; signed `/` and `%` (unspecified for negatives in the installed Verus) behind div_i128/rem_i128 with truncating semantics (R13); Arrow's MIN/MAX_DECIMAL*_FOR_EACH_PRECISION tables assumed to be +-(10^p - 1); decimal precision within 1..=9/18/38 as precondition. Temporal literals excluded from the claim."),
     "C42": dict(
         category="proof", technique="contract-based verification with Kani/CBMC on the real crate (complete loop-free harnesses for the combinators; bounded whole-tree harnesses listed separately)",
         text="Complete proofs (all cases) of the control contract of TreeNodeRecursion::{visit_children, visit_sibling, visit_parent} and Transformed::{transform_children, transform_sibling, transform_parent, transform_data, update_data, map_data}: closure called iff the documented state, Jump consumed exactly at children, Stop propagates, changed flag is the OR. Bounded stand-ins (one 4-node tree / one 4-leaf container, all decision vectors) for the real apply / visit / transform_down / transform_up / transform_down_up / rewrite, the sibling iterators and the Vec/Option/Box/tuple TreeNodeContainer impls.",
@@ -88,7 +92,6 @@ NOT_APPLICABLE = {
     'C44': 'Schema adaptation: Arrow casts and nested struct rewriting.',
     'C45': 'FFI wrappers: `unsafe extern "C"` vtables (abi_stable); unsafe/FFI outside both tools\' reach.',
     'C46': 'Benchmark result validation: CSV/string formatting and comparison.',
-    'C47': '128-bit mul/div/mod over all scales intractable for CBMC, enums outside Verus without a type model (stretch unit not built)',
     'C48': 'DataFrame ≡ SQL: whole-engine differential.',
     'C49': 'Catalog DDL and information_schema: async, `DashMap`, SQL planning.',
     'C50': 'Progress over unbounded inputs: liveness over async streams; contracts here decide safety of single calls only.',
